@@ -153,6 +153,9 @@ theorem execMsg_ghost {m : Msg} {s s' : State} (h : execMsg m s = some s') : s'.
         · cases h
     · simp [addDepositGov, show depositGuardsModule = true from rfl] at h
     · simp [submitGov, show depositGuardsModule = true from rfl] at h
+    · split at h
+      · cases h
+      · cases h; simp
 
 theorem execMsgs_ghost : ∀ (ms : List Msg) (s s' : State), execMsgs ms s = some s' →
     s'.paid = s.paid ∧ s'.deps = s.deps ∧ s'.settled = s.settled := by
